@@ -32,6 +32,8 @@ CONFIGS = [
     {"name": "pre-backends", "preimport": ["cryptography.hazmat.backends", "cryptography.hazmat.primitives.hashes"]},
     {"name": "pre-cli", "preimport": ["conda_content_trust.cli"]},
     {"name": "pre-misc", "preimport": ["hashlib", "ssl", "decimal", "locale", "unittest.mock"]},
+    {"name": "pre-strictwarnings", "preimport": ["vf.monitors.strictwarnings"]},
+    {"name": "locale-C-noutf8", "env": {"LC_ALL": "C", "PYTHONUTF8": "0", "PYTHONCOERCECLOCALE": "0"}},
 ]
 
 
@@ -48,6 +50,10 @@ def plan(tier, seed):
     specs.append({"kind": "libsigner", "count": 60 if tier == "quick" else 1500, "config": "default"})
     for _ in range(2 if tier == "quick" else 6):
         specs.append({"kind": "built_on", "count": 500 if tier == "quick" else 6000, "config": "default"})
+    for c in (CONFIGS[0], CONFIGS[-1], CONFIGS[-2]):
+        s = {"kind": "files", "config": c["name"], "count": 25 if tier == "quick" else 400}
+        s.update({k: v for k, v in c.items() if k != "name"})
+        specs.append(s)
     for c in (CONFIGS[0], CONFIGS[1], CONFIGS[5]):
         s = {"kind": "fixtures", "config": c["name"]}
         s.update({k: v for k, v in c.items() if k != "name"})
@@ -97,7 +103,7 @@ def run_env(spec, rec, lib):
         case = envelope.gen_case(rng, stratum=stratum)
         # completeness needs junk: force some
         if rng.random() < 0.6:
-            for _ in range(rng.randint(1, 4)):
+            for _ in range(rng.choice([1, 2, 3, 4, 17, 33])):
                 k, v = gentries.junk_pair(rng)
                 if not any(p[0] == k for p in case["sigs"]):
                     case["sigs"].insert(rng.randint(0, len(case["sigs"])), [k, v])
@@ -215,6 +221,48 @@ def run_bigjunk(spec, rec, lib):
         judge(case, rec, lib, "bigjunk")
 
 
+def run_files(spec, rec, lib):
+    """sufficiently signed envelopes stored as JSON text in any encoding a JSON parser auto-detects (UTF-8 with raw non-ASCII
+    text, with BOM, UTF-16, UTF-32) and in any layout load and verify, whatever the process locale"""
+    import json as _json
+    import os as _os
+
+    rng = random.Random(spec["seed"])
+    C, A = lib.common, lib.authentication
+    cfg = spec.get("config", "default")
+    fn = _os.path.join(spec["scratch"], "stored.json")
+    for i in range(spec["count"]):
+        signed = {"name": rng.choice(["caf\u00e9", "\u65e5\u672c\u8a9e", "\U0001f600 pkg", "plain"]), "v": jsonvals.rand_value(rng, 0, 2, 3)}
+        ks = [gkeys.key(j) for j in rng.sample(range(6), rng.randint(1, 3))]
+        data = canonjson.canon(signed)
+        env = {"signatures": {k.hex: {"signature": ed25519.sign(k.seed, data).hex()} for k in ks}, "signed": signed}
+        try:
+            text = _json.dumps(env, ensure_ascii=rng.random() < 0.3, indent=rng.choice([None, 2, 4]))
+            enc = rng.choice(["utf-8", "utf-8", "utf-8-sig", "utf-16", "utf-16-le", "utf-16-be", "utf-32"])
+            raw = text.encode(enc)
+        except (UnicodeEncodeError, ValueError):
+            continue
+        with open(fn, "wb") as f:
+            f.write(raw)
+        try:
+            expect = _json.loads(raw)  # what a conforming parser makes of these bytes
+        except Exception:
+            continue
+        l = boundary.call(lib, C.load_metadata_from_file, fn)
+        rec.case("files|%s|%s" % (enc, cfg))
+        rec.hist("file_encoding", enc)
+        case = {"kind": "file", "encoding": enc, "config": cfg, "text": text}
+        if not l.accepted or boundary.value_fingerprint(l.value) != boundary.value_fingerprint(expect):
+            rec.violation(boundary.mechanism("false-reject", "load_metadata_from_file[%s]" % enc.split("-")[0], "value", l),
+                          "a %s JSON file holding a sufficiently signed envelope does not load to its value (config %s): %s"
+                          % (enc, cfg, (l.msg or "")[:100]), case)
+            continue
+        o = boundary.call(lib, A.verify_signable, l.value, [k.hex for k in ks], len(ks))
+        rec.count("file_verifications")
+        if not o.accepted:
+            rec.violation(boundary.mechanism("false-reject", "verify_signable[file]", "accept", o), "stored envelope rejected after load", case)
+
+
 def run_built_on(spec, rec, lib):
     """completeness of everything built on the envelope verifier: whenever the named role's (or both root rules')
     thresholds are met by valid signatures, verify_delegation / verify_root return normally - whatever else the
@@ -253,6 +301,8 @@ def run_shard(spec, rec, lib):
         return run_threads(spec, rec, lib)
     if spec["kind"] == "built_on":
         return run_built_on(spec, rec, lib)
+    if spec["kind"] == "files":
+        return run_files(spec, rec, lib)
     {"env": run_env, "libsigner": run_libsigner, "fixtures": run_fixtures, "bigjunk": run_bigjunk}[
         spec["kind"]
     ](spec, rec, lib)
